@@ -389,6 +389,9 @@ func (ev *Eval) phi(p *ssa.Phi) *Term {
 	loops := ev.E.Loops(ev.Fn)
 	l := loopWithHeader(loops, p.Block())
 	if l == nil {
+		if m := ev.rotatedExitPhi(p); m != nil {
+			return m
+		}
 		if g := ev.gated(p); g != nil {
 			return g
 		}
@@ -409,6 +412,41 @@ func (ev *Eval) phi(p *ssa.Phi) *Term {
 	init := ev.mergeOps(inits, p, false)
 	next := ev.mergeOps(nexts, p, true)
 	return normaliseMu(l, p, init, next, lv)
+}
+
+// rotatedExitPhi: below a bottom-tested loop the exit block merges [entry guard false: init, latch: next]; that merge is the
+// final value of the header phi with the same init/next operands.
+func (ev *Eval) rotatedExitPhi(p *ssa.Phi) *Term {
+	if len(p.Edges) != 2 {
+		return nil
+	}
+	loops := ev.E.Loops(ev.Fn)
+	for i := 0; i < 2; i++ {
+		latch, other := p.Block().Preds[i], p.Block().Preds[1-i]
+		l := innermost(loops, latch)
+		if l == nil || l.Blocks[p.Block()] || l.Blocks[other] {
+			continue
+		}
+		next, init := p.Edges[i], p.Edges[1-i]
+		for _, in := range l.Header.Instrs {
+			hp, ok := in.(*ssa.Phi)
+			if !ok {
+				break
+			}
+			var hInit, hNext ssa.Value
+			for k, pred := range l.Header.Preds {
+				if l.Blocks[pred] {
+					hNext = hp.Edges[k]
+				} else {
+					hInit = hp.Edges[k]
+				}
+			}
+			if hInit == init && hNext == next {
+				return ev.Term(hp)
+			}
+		}
+	}
+	return nil
 }
 
 // gated turns a two-way merge below an if/else diamond into ite(cond, a, b).
@@ -495,25 +533,32 @@ func (ev *Eval) resolveIV(l *Loop, p *ssa.Phi, init *Term, step int64) {
 	}
 	l.resolved = true
 	l.IV, l.Init, l.Step = p, init, step
-	// the header must end in an If whose condition compares phi (+k) with a bound
-	if len(l.Header.Instrs) == 0 {
+	// the loop test: top-tested (the header ends in the test) or bottom-tested/rotated (go/ssa's range-over-int form:
+	// an entry guard `init cmp bound` in the preheader and the test of the *next* value in the latch)
+	testBlock := l.Header
+	rotated := false
+	ifi, ok := lastIf(l.Header)
+	if !ok || !testsIV(ifi, p) || (len(l.Header.Preds) > 0 && headerIsLatchOnly(l)) {
+		// look for a latch that tests the next value
+		for _, pred := range l.Header.Preds {
+			if !l.Blocks[pred] {
+				continue
+			}
+			if li, ok := lastIf(pred); ok && testsIV(li, p) {
+				ifi, testBlock, rotated = li, pred, true
+			}
+		}
+	}
+	if ifi == nil || !testsIV(ifi, p) {
+		l.whyNoIV = "no loop test on the induction variable found"
 		return
 	}
-	ifi, ok := l.Header.Instrs[len(l.Header.Instrs)-1].(*ssa.If)
-	if !ok {
-		l.whyNoIV = "header does not end in a conditional branch"
-		return
-	}
-	cmp, ok := ifi.Cond.(*ssa.BinOp)
-	if !ok {
-		l.whyNoIV = "loop condition is not a comparison"
-		return
-	}
+	cmp := ifi.Cond.(*ssa.BinOp)
 	// which successor stays in the loop
-	stayOnTrue := l.Blocks[l.Header.Succs[0]] && !l.Blocks[l.Header.Succs[1]]
-	stayOnFalse := l.Blocks[l.Header.Succs[1]] && !l.Blocks[l.Header.Succs[0]]
+	stayOnTrue := l.Blocks[testBlock.Succs[0]] && !l.Blocks[testBlock.Succs[1]]
+	stayOnFalse := l.Blocks[testBlock.Succs[1]] && !l.Blocks[testBlock.Succs[0]]
 	if !stayOnTrue && !stayOnFalse {
-		l.whyNoIV = "both or neither branch of the header stays in the loop"
+		l.whyNoIV = "both or neither branch of the loop test stays in the loop"
 		return
 	}
 	off, okL := ivOffset(cmp.X, p)
@@ -531,8 +576,91 @@ func (ev *Eval) resolveIV(l *Loop, p *ssa.Phi, init *Term, step int64) {
 	if stayOnFalse {
 		op = negateCmp(op)
 	}
+	bound := ev.opIn(boundV, testBlock)
+	if rotated {
+		// the latch must test the next value, and the preheader must guard entry with the same test on the initial value
+		if off != step {
+			l.whyNoIV = "bottom-tested loop does not test the next value of the induction variable"
+			return
+		}
+		guarded := false
+		for _, pred := range l.Header.Preds {
+			if l.Blocks[pred] {
+				continue
+			}
+			gi, ok := lastIf(pred)
+			if !ok {
+				continue
+			}
+			gc, ok := gi.Cond.(*ssa.BinOp)
+			if !ok {
+				continue
+			}
+			gop := gc.Op
+			gx, gy := ev.opIn(gc.X, pred), ev.opIn(gc.Y, pred)
+			if Eq(gy, init) && Eq(gx, bound) {
+				gx, gy = gy, gx
+				gop = flipCmp(gop)
+			}
+			enterOnTrue := pred.Succs[0] == l.Header
+			if !enterOnTrue {
+				gop = negateCmp(gop)
+			}
+			if Eq(gx, init) && Eq(gy, bound) && gop == op {
+				guarded = true
+			}
+		}
+		if !guarded {
+			l.whyNoIV = "bottom-tested loop without a matching entry guard"
+			return
+		}
+		off = 0 // equivalent top-tested loop: the body runs for iv = init, init+step, … while iv cmp bound
+		// exits from the testing latch are the loop's regular exit
+		l.ExitsOK = true
+		for b := range l.Blocks {
+			if b == testBlock {
+				continue
+			}
+			for _, sc := range b.Succs {
+				if !l.Blocks[sc] && !abortsWithError(sc) {
+					l.ExitsOK = false
+				}
+			}
+		}
+	}
 	l.CondOp, l.TestOff, l.HasCond = op, off, true
-	l.Bound = ev.opIn(boundV, l.Header)
+	l.Bound = bound
+}
+
+func lastIf(b *ssa.BasicBlock) (*ssa.If, bool) {
+	if len(b.Instrs) == 0 {
+		return nil, false
+	}
+	ifi, ok := b.Instrs[len(b.Instrs)-1].(*ssa.If)
+	return ifi, ok
+}
+
+// testsIV: the branch condition compares the induction variable (or its next value) with something.
+func testsIV(ifi *ssa.If, p *ssa.Phi) bool {
+	cmp, ok := ifi.Cond.(*ssa.BinOp)
+	if !ok {
+		return false
+	}
+	if _, ok := ivOffset(cmp.X, p); ok {
+		return true
+	}
+	_, ok = ivOffset(cmp.Y, p)
+	return ok
+}
+
+// headerIsLatchOnly: single-block loop whose header is its own latch (the test at its end is a bottom test).
+func headerIsLatchOnly(l *Loop) bool {
+	for _, pred := range l.Header.Preds {
+		if pred == l.Header {
+			return true
+		}
+	}
+	return false
 }
 
 func ivOffset(v ssa.Value, p *ssa.Phi) (int64, bool) {
